@@ -255,6 +255,65 @@ theorem C07_spendable_dict_rt (s : Spendable) : Spendable.fromDict s.asDict = .o
   rw [← Tx.b2h, h2b_b2h]
   simp
 
+theorem streamSatoshiInt_eq_int (v : Int) (h : U64 v) :
+    streamSatoshiInt v = .ok (Spec.Wire.compactSize v.toNat) := by
+  have h0 := h.1
+  have h1 := h.2
+  have e : v = ((v.toNat : Nat) : Int) := (Int.toNat_of_nonneg h0).symm
+  have hn : v.toNat < 2 ^ 64 := by omega
+  have := streamSatoshiInt_eq v.toNat hn
+  rw [← e] at this
+  exact this
+
+/-- C07.spendable_bin_rt: the binary spendable form (`as_bin(as_spendable=True)`) parses back, whatever follows -/
+theorem C07_spendable_bin_rt (s : Spendable) (h : s.WF) (rest : Bytes) :
+    ∃ b, s.asBin true = .ok b ∧ Spendable.parse (b ++ rest) = .ok (s, rest) ∧ Spendable.fromBin b = .ok s := by
+  have hh : List.take 32 s.txHash = s.txHash := List.take_of_length_le (by rw [h.hash]; exact Nat.le_refl _)
+  let vals : List Val := [.int s.coinValue, .bytes s.script, .bytes s.txHash, .int s.txOutIndex,
+    .int s.blockIndexAvailable, .bool (s.doesSeemSpent != 0), .int s.blockIndexSpent]
+  -- the whole record streams under the parse format
+  have hall : ∃ b, streamStruct tbl F.spendable_parse vals = .ok b ∧ s.asBin true = .ok b := by
+    cases hx : streamStruct tbl F.spendable_parse vals with
+    | error e =>
+      simp only [vals, Gen.Formats.spendable_parse, streamStruct, tbl_Q, tbl_S, tbl_hash, tbl_L, tbl_I, tbl_b, streamLetter,
+        packLE8_eq _ h.value, packLE4_eq _ h.index, streamSatoshiString_eq _ (lenOk_lt h.script),
+        streamSatoshiInt_eq_int _ h.available, streamSatoshiInt_eq_int _ h.spent, hh] at hx
+      cases hx
+    | ok b =>
+      refine ⟨b, rfl, ?_⟩
+      simp only [vals, Gen.Formats.spendable_parse, streamStruct, tbl_Q, tbl_S, tbl_hash, tbl_L, tbl_I, tbl_b, streamLetter,
+        packLE8_eq _ h.value, packLE4_eq _ h.index, streamSatoshiString_eq _ (lenOk_lt h.script),
+        streamSatoshiInt_eq_int _ h.available, streamSatoshiInt_eq_int _ h.spent, hh] at hx
+      have hx := Except.ok.inj hx
+      subst hx
+      simp only [Spendable.asBin, Spendable.stream, TxOut.stream, Gen.Formats.txOut_stream, Gen.Formats.spendable_stream,
+        streamStruct, tbl_Q, tbl_S, tbl_hash, tbl_L, tbl_I, tbl_b, streamLetter,
+        packLE8_eq _ h.value, packLE4_eq _ h.index, streamSatoshiString_eq _ (lenOk_lt h.script),
+        streamSatoshiInt_eq_int _ h.available, streamSatoshiInt_eq_int _ h.spent, hh, bind, Except.bind, pure, Except.pure,
+        if_true, List.append_assoc, List.append_nil]
+  obtain ⟨b, hb, hab⟩ := hall
+  have hwf : StructWF tbl F.spendable_parse vals := by
+    simp only [vals, Gen.Formats.spendable_parse, StructWF, tbl_Q, tbl_S, tbl_hash, tbl_L, tbl_I, tbl_b, LetterWF]
+    refine ⟨by decide, ⟨_, rfl, trivial⟩, by decide, ⟨_, rfl, h.script⟩, by decide, ⟨_, rfl, h.hash⟩, by decide, ⟨_, rfl, trivial⟩,
+      by decide, ⟨_, rfl, trivial⟩, by decide, ⟨_, rfl, trivial⟩, by decide, ⟨_, rfl, trivial⟩, trivial⟩
+  have hp : ∀ r, Spendable.parse (b ++ r) = .ok (s, r) := by
+    intro r
+    have := parseStruct_streamStruct tbl _ _ b r hwf hb
+    unfold Spendable.parse
+    rw [this]
+    simp only [vals]
+    have hd : (if (s.doesSeemSpent != 0) = true then (1 : Int) else 0) = s.doesSeemSpent := by
+      rcases h.seemsSpent with h0 | h1
+      · rw [h0]; rfl
+      · rw [h1]; rfl
+    cases s
+    simp only at hd ⊢
+    rw [hd]
+  refine ⟨b, hab, hp rest, ?_⟩
+  have := hp []
+  rw [List.append_nil] at this
+  simp [Spendable.fromBin, this]
+
 /-! ## non-vacuity -/
 
 def exIn : TxIn := ⟨List.replicate 32 0x11, 7, [0x51], 0xFFFFFFFE, [[], [1, 2], []]⟩
